@@ -196,7 +196,13 @@ func cmdCheck(args []string) int {
 		}
 	}
 	sort.Slice(cons, func(i, j int) bool { return shortName(cons[i].Fn) < shortName(cons[j].Fn) })
-	if len(cons) == 0 {
+	nStatic := 0
+	for _, sc := range p.Cons.Static {
+		if hasProp(sc.Tags, *prop) {
+			nStatic++
+		}
+	}
+	if len(cons) == 0 && nStatic == 0 {
 		fmt.Printf("UNDECIDED: no function under contract carries property %s\n", *prop)
 		return 3
 	}
@@ -235,6 +241,18 @@ func cmdCheck(args []string) int {
 			}
 		}
 	}
+	// whole-package static frame conditions
+	var staticObls []*Obligation
+	for _, sc := range p.Cons.Static {
+		if hasProp(sc.Tags, *prop) {
+			so := p.runStatic(sc)
+			staticObls = append(staticObls, so)
+			if so.Status == "error" {
+				fmt.Printf("UNDECIDED: %s: %s\n", so.Name, so.Model)
+				undecided++
+			}
+		}
+	}
 	scratch, _ := os.MkdirTemp(scratchBase(), "govc")
 	defer os.RemoveAll(scratch)
 	opts := solveOpts{timeoutS: 20, seed: seed, scratch: scratch, workers: 16}
@@ -244,6 +262,7 @@ func cmdCheck(args []string) int {
 	}
 	stats := newSolveStats()
 	solveAll(obls, opts, stats)
+	obls = append(obls, staticObls...)
 
 	// known findings
 	var kf KnownFile
